@@ -22,7 +22,7 @@ KIND = {inspect.Parameter.POSITIONAL_OR_KEYWORD: 1, inspect.Parameter.VAR_POSITI
         inspect.Parameter.VAR_KEYWORD: 4, inspect.Parameter.POSITIONAL_ONLY: 0}
 
 
-def make_func(sig, is_async, annotated):
+def make_func(sig, is_async, annotated, NAME=NAME, fname="target", doc=True, star="args", dstar="kw"):
     pos, ndef = sig["pos"], sig["ndef"]
     parts = []
     for i, n in enumerate(pos):
@@ -31,7 +31,7 @@ def make_func(sig, is_async, annotated):
             p += " = %d" % (90 + n) if annotated else "=%d" % (90 + n)
         parts.append(p)
     if sig["star"]:
-        parts.append("*args")
+        parts.append("*" + star)
     elif sig["kwo"]:
         parts.append("*")
     for k in sig["kwo"]:
@@ -40,14 +40,15 @@ def make_func(sig, is_async, annotated):
             p += " = %d" % (90 + k["n"]) if annotated else "=%d" % (90 + k["n"])
         parts.append(p)
     if sig["dstar"]:
-        parts.append("**kw")
+        parts.append("**" + dstar)
     names = [NAME[n] for n in pos] + [NAME[k["n"]] for k in sig["kwo"]]
     body = "    return {'args': [%s], 'star': %s, 'kw': %s}" % (
-        ", ".join("(%r, %s)" % (n, n) for n in names), "list(args)" if sig["star"] else "[]", "sorted(kw)" if sig["dstar"] else "[]")
-    src = "%sdef target(%s)%s:\n    'target doc'\n%s\n" % ("async " if is_async else "", ", ".join(parts), " -> dict" if annotated else "", body)
+        ", ".join("(%r, %s)" % (n, n) for n in names), ("list(%s)" % star) if sig["star"] else "[]", ("sorted(%s)" % dstar) if sig["dstar"] else "[]")
+    src = "%sdef %s(%s)%s:\n%s%s\n" % ("async " if is_async else "", fname, ", ".join(parts), " -> dict" if annotated else "",
+                                       "    'target doc'\n" if doc else "", body)
     ns = {}
     exec(compile(src, "<c13>", "exec"), ns)
-    f = ns["target"]
+    f = ns[fname]
     f.__module__ = "c13.generated"
     return f
 
@@ -160,13 +161,73 @@ def stacked(row):
     return bad
 
 
+ODD = {1: "_call", 2: "_func", 3: "fb", 4: "wrapper", 5: "func", 6: "zz", 7: "z", 100: "args", 101: "kw"}
+
+
+def odd_names(row):
+    """The same signature spelt with the names the implementation uses internally (_call, _func, ...), for the parameters,
+    for *args / **kwargs and for the function itself, on a function without docstring: own signature, metadata
+    (__doc__ stays None), and one accepted call forwarded unchanged."""
+    from boltons import funcutils
+    sig, mode = row["sig"], row["mode"]
+    if mode not in ("plain", "inject"):
+        return []
+    want_params = [[{"args": "__call", "kw": "_func_"}.get(NAME[p[0]], ODD[p[0]]), p[1], p[2]] for p in row["wparams"]]
+    bad = []
+    for fname in ("_call", "target"):
+        f = make_func(sig, False, False, NAME=ODD, fname=fname, doc=False, star="__call", dstar="_func_")
+
+        def wrapper(*a, **kw):
+            if mode == "inject":
+                inj = ODD[row["arg"]]
+                fpos = [ODD[n] for n in sig["pos"]]
+                if inj in fpos:
+                    a = list(a)
+                    a.insert(min(fpos.index(inj), len(a)), 70)
+                else:
+                    kw = dict(kw, **{inj: 70})
+            return f(*a, **kw)
+        try:
+            w = funcutils.wraps(f, injected=[ODD[row["arg"]]])(wrapper) if mode == "inject" else funcutils.wraps(f)(wrapper)
+        except Exception as ex:
+            bad.append(("odd-names", "wraps-raised:" + core.exc_name(ex), str(ex)[:200]))
+            continue
+        got = [[n, k, d] for n, k, d, _ in params_of(w)]
+        if got != want_params:
+            bad.append(("odd-names", "signature", {"wrapper": got, "expected": want_params}))
+            continue
+        if (w.__name__, w.__doc__, w.__module__) != (f.__name__, f.__doc__, f.__module__) or w.__doc__ is not None:
+            bad.append(("odd-names", "metadata", (w.__name__, w.__doc__, w.__module__)))
+        # one call every such wrapper accepts: all remaining positional parameters by position, required keyword-only ones by name
+        npos = len([p for p in row["wparams"] if p[1] == 1])
+        kws = {ODD[p[0]]: 5 for p in row["wparams"] if p[1] == 3 and not p[2]}
+        if mode == "inject" and ODD[row["arg"]] in [ODD[n] for n in sig["pos"]] and [ODD[n] for n in sig["pos"]].index(ODD[row["arg"]]) < npos:
+            continue        # (the little wrapper above only handles an injected parameter at the end of what is passed)
+        try:
+            r1 = w(*range(1, npos + 1), **kws)
+            exp_kw = dict(kws)
+            exp_a = list(range(1, npos + 1))
+            if mode == "inject":
+                inj = ODD[row["arg"]]
+                if inj in [ODD[n] for n in sig["pos"]]:
+                    exp_a.append(70)
+                else:
+                    exp_kw[inj] = 70
+            r2 = f(*exp_a, **exp_kw)
+            if r1 != r2:
+                bad.append(("odd-names", "forwarded-arguments", {"wrapper": r1, "direct": r2}))
+        except Exception as ex:
+            bad.append(("odd-names", "call-raised:" + core.exc_name(ex), str(ex)[:200]))
+    return bad
+
+
 def run_row(row):
     from boltons import funcutils
-    bad = equalish_defaults(row) + injected_lists(row) + stacked(row)
+    bad = equalish_defaults(row) + injected_lists(row) + stacked(row) + odd_names(row)
     sig, mode = row["sig"], row["mode"]
     want_params = [[NAME[p[0]], p[1], p[2]] for p in row["wparams"]]
     seen = row["seen"]
-    for is_async, annotated in ((False, False), (True, True)):
+    for is_async, annotated in ((False, False), (True, True), (False, True), (True, False)):
         f = make_func(sig, is_async, annotated)
         before = (f.__defaults__, dict(f.__kwdefaults__ or {}), dict(f.__annotations__), f.__name__, f.__doc__)
         label = "%s%s" % ("async," if is_async else "", "annotated" if annotated else "plain")
@@ -228,6 +289,11 @@ def run_row(row):
         if [[n, k, d] for n, k, d, _ in got] != want_params:
             bad.append((label, "signature", {"wrapper": [[n, k, d] for n, k, d, _ in got], "expected": want_params}))
             continue
+        # annotations are part of the signature: every surviving parameter keeps its own, and the return annotation stays
+        sw, sf = inspect.signature(w, follow_wrapped=False), inspect.signature(f, follow_wrapped=False)
+        wrong = [n for n, p_ in sw.parameters.items() if n in sf.parameters and p_.annotation != sf.parameters[n].annotation]
+        if wrong or sw.return_annotation != sf.return_annotation:
+            bad.append((label, "annotations", {"parameters": wrong, "return": str(sw.return_annotation)}))
         if any(d and v != 90 + next(i for i, nm in NAME.items() if nm == n) for n, k, d, v in got):
             bad.append((label, "default-values", got))
         if (w.__name__, w.__doc__, w.__module__) != (f.__name__, f.__doc__, f.__module__) or getattr(w, "__wrapped__", None) is not f:
